@@ -18,19 +18,44 @@ Three streams, all on the REAL navis imported in-process:
          snapshot of the non-inplace result.
     Arithmetic: `x * k` vs `x *= k` (and `/ + -`) for all four neuron types.  NeuronList: operators `+ | & -`,
     `apply`, `copy`, `remove_duplicates`, and map_neuronlist-decorated functions with `inplace` True / False.
+    Extensions of the sweep (second pass):
+      * **degenerate / "nothing to do" arguments** (`NOOP`: reroot to the current root, subset to all / no nodes, prune with
+        size 0 / depth inf / an absent Strahler index, downsample factor 1 / inf, resample at the current resolution, heal an
+        unfragmented neuron, identity xform, convert_units to the current unit, drop_fluff on one component, remove_nodes([]),
+        volumes containing everything / nothing, neutral arithmetic `x*1`, `x+0` ...): the three-way check plus OBJECT IDENTITY —
+        the result (every result neuron of a list) is none of the input objects and shares no table / array / tag list /
+        igraph / cached list with them (`shared_containers`);
+      * **option space** (`option_flips`): for every covered callable the boolean keywords and the documented / annotated
+        string choices are read off `inspect.signature` + the numpydoc Parameters section; every single flip (under the default
+        arguments and under the per-function contexts `CTX`, e.g. heal_skeleton with max_dist / min_size / mask) and a few
+        random combinations run the three-way check on inputs on which the options act (`rich`: soma on an inner node, NaN
+        radii, connectors on twigs, tags; `frag`: near / tiny / far fragments with connectors and tags on each);
+      * **back-ends**: the same functions under navis-fastcore switched off (igraph / networkx code paths);
+      * **NeuronList method mapping** (`nl.prune_twigs(...)` through `NeuronList.__getattr__` -> NeuronProcessor);
+      * snapshots are deep: derived views (segments, small segments, both graphs' edge lists with weights, cached geodesic
+        matrix) and every other attribute incl. user-defined ones; the reference snapshot comes from an identically built TWIN
+        so that snapshotting does not warm the caches of the object under test;
+      * annotations are whitelisted per function, per table and per column (`ANNOT`, tied to Lean `InputWrites.documented`).
 (B) **model correspondence** (`c03.copy`, `c03.call`, `c03.bad`, `c03.maplist`, `c03.listop`): random bodies of
     primitive writes (in-place table / array / graph / igraph edits, re-bindings, metadata re-binding, thaw, cache
     clears) are run on real TreeNeuron / Dotprops / MeshNeuron objects behind the real `copy()` and the real
     `map_neuronlist` wrapper, and identity / sharing / final contents are compared with the Lean heap model — this ties
     "copy = fresh containers for tables and arrays, alias for the networkx view, fresh igraph, dropped lock" and the list
     swap to pandas-3 / numpy / networkx / igraph as installed.
+    `c03.deep`: two-level attributes (tags: dict of lists; cached segment lists: list of arrays) behind the real copy() /
+    NeuronList.copy / copy.copy, edited through the copy, vs the two-level heap model under the copy mode the translator read
+    off `TreeNeuron.copy` (`Gen/CopySpec`).
 (C) **translator cross-check** (`c03.trace`): the Python-side `ok_trace` of the translator agrees with the Lean `okTrace`
-    on every extracted trace, and the Lean trace semantics reproduces frame / violation.
+    on every extracted trace (events now include `retIn` = the un-copied input is returned, `lostDelegate` = a delegated call's
+    result is thrown away), and the Lean trace semantics reproduces frame / violation / fresh result / inplace equivalence.
+    `c03.annot`: the harness' annotation whitelist equals the Lean whitelist the theorem `input_writes_whitelisted` is about.
 
 Defects found by this check and since fixed in navis (known_findings/C03.json, status "fixed"; every one of them is an
 ordinary VIOLATION again if it returns): `nl | n` appended to the receiver's list; `copy()` shared the tag *lists* between
 input and result; `Dotprops.to_skeleton` shared its connector table with the result; `find_main_branchpoint` left a
-`betweenness` column in its input."""
+`betweenness` column in its input.  Open (printed as KNOWN-FINDING): `split_into_fragments(reroot_soma=True)` and
+`persistence_points(remove_cbf=True)` reroot their input; `average_skeletons` leaves a `tree` attribute on every input neuron;
+`copy()` shares the arrays inside the cached segment lists."""
 import inspect, importlib, itertools, os, random as _random, tempfile, warnings, copy as _copy, math
 from pathlib import Path
 
@@ -43,6 +68,7 @@ import networkx as nx
 import trimesh
 
 from . import gen
+from . import backends as _backends
 
 navis.config.pbar_hide = True
 navis.set_loggers('ERROR')
@@ -81,6 +107,90 @@ def build_tree(rng, forest=False, n=None, ident=0):
     return x
 
 
+def _subtree(rows, top):
+    ch = gen.children_map(rows)
+    out, todo = [], [top]
+    while todo:
+        n = todo.pop()
+        out.append(n)
+        todo += ch.get(n, [])
+    return out
+
+
+def build_rich(rng, ident=0, frag=False):
+    """A skeleton on which the non-default options matter: soma on an internal non-root node (reroot_soma), two NaN radii,
+    connectors on terminal twigs and on the root side (relocate_connectors / keep_disc_cn), tags on leafs and internal nodes.
+    frag=True: additionally cut into a main part, a NEAR fragment (gap = one edge), a tiny 1-2 node fragment and a FAR fragment
+    (moved by 1e5 in x: `max_dist` / `min_size` / `mask` keep a heal incomplete); connectors / tags on every fragment."""
+    for _ in range(200):
+        rows, meta = gen.rand_forest(rng, n=rng.randint(18, 24), shape=rng.choice(['random', 'caterpillar', 'balanced', 'random']),
+                                     labeling=rng.choice(['seq', 'shuffled', 'sparse']), order=rng.choice(['parent_first', 'shuffled']))
+        ch = gen.children_map(rows)
+        roots = ch.get(-1, [])
+        internal = [r['id'] for r in rows if r['parent'] >= 0 and len(ch.get(r['id'], [])) >= 1]
+        nbranch = sum(1 for k, v in ch.items() if k >= 0 and len(v) >= 2)
+        if len(roots) != 1 or nbranch < 3 or len(internal) < 4:
+            continue
+        if not frag:
+            break
+        # cut points: three nodes in different subtrees of sizes >= 3, 1..2, >= 2 (none an ancestor of another)
+        sizes = {r['id']: len(_subtree(rows, r['id'])) for r in rows if r['parent'] >= 0}
+        big = [i for i, k in sizes.items() if 3 <= k <= len(rows) // 3]
+        tiny = [i for i, k in sizes.items() if k <= 2]
+        rng.shuffle(big); rng.shuffle(tiny)
+        pick = None
+        for a in big:
+            sa = set(_subtree(rows, a))
+            for b in big:
+                if b in sa or a in _subtree(rows, b):
+                    continue
+                sb = set(_subtree(rows, b))
+                for c in tiny:
+                    if c in sa or c in sb or a in _subtree(rows, c) or b in _subtree(rows, c):
+                        continue
+                    pick = (a, b, c)
+                    break
+                if pick:
+                    break
+            if pick:
+                break
+        if pick:
+            break
+    else:
+        raise RuntimeError('build_rich: no suitable shape found')
+    byid = {r['id']: r for r in rows}
+    if frag:
+        near, far, tny = pick
+        for c in pick:
+            byid[c]['parent'] = -1
+        for i in _subtree(rows, far):
+            byid[i]['x'] += 100000
+    df = gen.rows_to_df(rows)
+    ids = [r['id'] for r in rows]
+    ch = gen.children_map(rows)
+    leafs = [i for i in ids if not ch.get(i)]
+    main = _subtree(rows, roots[0])
+    soma_c = [i for i in main if byid[i]['parent'] >= 0 and ch.get(i)]
+    soma = int(rng.choice(soma_c))
+    nanr = rng.sample([i for i in ids if i != soma], 2)
+    df['radius'] = df['radius'].astype(float)
+    df.loc[df.node_id.isin(nanr), 'radius'] = np.nan
+    x = navis.TreeNeuron(df, units='8 nm', name=f'r{ident}', id=150 + ident)
+    cn_nodes = list(dict.fromkeys(leafs[:4] + [roots[0], soma] + ([pick[1], pick[2], pick[0]] if frag else []) + ids[:2]))
+    k = len(cn_nodes)
+    cn = pd.DataFrame({'connector_id': np.arange(900, 900 + k, dtype=np.int64), 'node_id': np.array(cn_nodes, dtype=np.int64),
+                       'type': np.array([(0, 1, 1, 0, 1)[i % 5] for i in range(k)], dtype=np.int64)})
+    xyz = x.nodes.set_index('node_id').loc[cn.node_id.values, ['x', 'y', 'z']].values
+    cn['x'], cn['y'], cn['z'] = xyz[:, 0] + 1.0, xyz[:, 1], xyz[:, 2]
+    x.connectors = cn
+    x.tags = {'ends': [int(i) for i in leafs[:3]], 'inner': [int(soma)], 'mixed': [int(ids[0]), int(ids[-1])]}
+    if frag:
+        x.tags['far'] = [int(pick[1])]
+    x.soma = soma
+    x.c03_note = 'user attribute'            # a plain user-defined attribute must survive every call untouched
+    return x
+
+
 def build_mesh(rng, ident=0):
     m = trimesh.creation.icosphere(subdivisions=1, radius=10.0)
     v = np.array(m.vertices) + np.array([20.0, 20.0, 20.0])
@@ -113,8 +223,38 @@ def build_voxel(rng, ident=0):
     return v
 
 
+_BUILD_MEMO = {}
+
+
 def build(kind, seed, warm=False):
+    """Deterministic in (kind, seed): the first request constructs the object, later ones unpickle an identical, independent
+    twin of the freshly constructed (cold) object; caches are warmed afterwards on request."""
+    import pickle
+    key = (kind, seed)
+    if key in _BUILD_MEMO:
+        x = pickle.loads(_BUILD_MEMO[key])
+    else:
+        x = _build(kind, seed)
+        if len(_BUILD_MEMO) > 400:
+            _BUILD_MEMO.clear()
+        _BUILD_MEMO[key] = pickle.dumps(x)
+    if warm:
+        for n in (x if isinstance(x, navis.NeuronList) else [x]):
+            if isinstance(n, navis.TreeNeuron):
+                _ = n.graph
+                _ = n.igraph
+                _ = n.segments
+                _ = n.small_segments
+    return x
+
+
+def _build(kind, seed):
+    warm = False
     rng = _random.Random(f'c03-input-{kind}-{seed}')
+    if kind.endswith('_u1'):               # the same object in plain '1 nm' units (convert_units to the current unit)
+        x = _build(kind[:-3], seed)
+        x.units = '1 nm'
+        return x
     if kind == 'tree':
         x = build_tree(rng)
     elif kind == 'tree_lab':
@@ -124,6 +264,14 @@ def build(kind, seed, warm=False):
         x.nodes['label'] = lab
     elif kind == 'forest':
         x = build_tree(rng, forest=True)
+    elif kind == 'rich':
+        x = build_rich(rng)
+    elif kind == 'frag':
+        x = build_rich(rng, frag=True)
+    elif kind == 'nl_rich':
+        x = navis.NeuronList([build_rich(rng, ident=i) for i in range(2)])
+    elif kind == 'nl_frag':
+        x = navis.NeuronList([build_rich(rng, ident=i, frag=True) for i in range(2)])
     elif kind == 'mesh':
         x = build_mesh(rng)
     elif kind == 'dots':
@@ -144,7 +292,11 @@ def build(kind, seed, warm=False):
                 _ = n.graph
                 _ = n.igraph
                 _ = n.segments
+                _ = n.small_segments
     return x
+
+
+TREE_KINDS = ('tree', 'tree_lab', 'forest', 'rich', 'frag')
 
 
 # =================================================================================================
@@ -184,9 +336,11 @@ def _try(fn):
         return f'ERR:{type(e).__name__}'
 
 
-def snap(x):
+def snap(x, light=False):
+    """light=True: without the edge lists of the two graph representations (used for RESULT objects, whose graphs are usually
+    not built yet; stale caches of results are C02's subject)"""
     if isinstance(x, navis.NeuronList):
-        return {'kind': 'NeuronList', 'members': [snap(n) for n in x.neurons]}
+        return {'kind': 'NeuronList', 'members': [snap(n, light) for n in x.neurons]}
     d = {'kind': type(x).__name__, 'name': _try(lambda: str(x.name)), 'id': _try(lambda: str(x.id)),
          'units': _try(lambda: str(x.units)), 'connectors': _try(lambda: snap_table(x.__dict__.get('_connectors')))}
     if isinstance(x, navis.TreeNeuron):
@@ -196,13 +350,25 @@ def snap(x):
         d['n_nodes'] = _try(lambda: int(x.n_nodes))
         d['cable_length'] = _try(lambda: float(x.cable_length))
         d['root'] = _try(lambda: sorted(int(r) for r in x.root))
-        d['n_segments'] = _try(lambda: len(x.segments))
         d['leafs'] = _try(lambda: sorted(int(v) for v in x.leafs.node_id.values))
         d['branch_points'] = _try(lambda: sorted(int(v) for v in x.branch_points.node_id.values))
         d['soma_radius'] = _try(lambda: str(getattr(x, 'soma_radius', None)))
+        # derived values, deeply (whatever is cached is what is served: a cache of the INPUT that a call damaged shows here)
+        d['segments'] = _try(lambda: sorted([int(v) for v in sg] for sg in x.segments))
+        d['n_segments'] = len(d['segments']) if isinstance(d['segments'], list) else d['segments']
+        d['small_segments'] = _try(lambda: sorted([int(v) for v in sg] for sg in x.small_segments))
+        if not light:
+            d['graph_edges'] = _try(lambda: sorted((int(u), int(v), _cell(w)) for u, v, w in x.graph.edges(data='weight')))
+            d['igraph_edges'] = _try(lambda: _igraph_edges(x))
+        d['n_trees'] = _try(lambda: int(x.n_trees))
+        if '_geodesic_matrix' in x.__dict__:
+            d['geodesic_cached'] = _try(lambda: snap_array(np.asarray(x.__dict__['_geodesic_matrix'])))
     elif isinstance(x, navis.MeshNeuron):
         d['vertices'] = snap_array(x.__dict__.get('_vertices'))
         d['faces'] = snap_array(x.__dict__.get('_faces'))
+        d['soma'] = _try(lambda: str(x.__dict__.get('_soma')))
+        d['bbox'] = _try(lambda: snap_array(x.bbox))
+        d['n_vertices'] = _try(lambda: int(x.n_vertices))
     elif isinstance(x, navis.Dotprops):
         d['points'] = snap_array(x.__dict__.get('_points'))
         d['vect'] = snap_array(x.__dict__.get('_vect'))
@@ -212,11 +378,53 @@ def snap(x):
         d['data'] = snap_array(x.__dict__.get('_data'))
         d['values'] = snap_array(x.__dict__.get('_values')) if '_values' in x.__dict__ else None
         d['offset'] = snap_array(x.offset)
+        d['shape'] = _try(lambda: [int(v) for v in x.shape])
+    # every other attribute of the object (user-defined ones included) except caches / bookkeeping
+    skip = set(getattr(x, 'TEMP_ATTR', [])) | _HANDLED_ATTRS
+    other = {}
+    for k, v in x.__dict__.items():
+        if k in skip:
+            continue
+        if k == 'created_at':
+            continue                                  # wall-clock bookkeeping of the constructor
+        other[k] = _try(lambda: _deep(v)) if k != 'origin' else os.path.basename(str(v))
+    d['other'] = other
     return d
 
 
+_HANDLED_ATTRS = {'_nodes', '_connectors', '_vertices', '_faces', '_points', '_vect', '_alpha', '_data', '_values', '_offset', 'tags',
+                  '_lock', '_current_md5', '_stale', 'SUMMARY_PROPS', 'TEMP_ATTR', '_memory_usage', '_tree', '_trimesh', '_name',
+                  '_id', '_unit_str', '_soma', 'k', 'cache', '_skeleton', '_base_md5'}
+
+
+def _deep(v, depth=0):
+    if isinstance(v, (str, bytes, type(None), bool, int, float, np.integer, np.floating, np.bool_)):
+        return _cell(v)
+    if isinstance(v, np.ndarray):
+        return snap_array(v)
+    if isinstance(v, pd.DataFrame):
+        return snap_table(v)
+    if depth < 3 and isinstance(v, (list, tuple)):
+        return [_deep(e, depth + 1) for e in v]
+    if depth < 3 and isinstance(v, dict):
+        return {str(k): _deep(e, depth + 1) for k, e in v.items()}
+    return f'<{type(v).__name__}>'
+
+
+def _igraph_edges(x):
+    g = x.igraph
+    if g is None:
+        return None
+    ids = g.vs['node_id']
+    w = g.es['weight'] if 'weight' in g.es.attributes() else [None] * g.ecount()
+    return sorted((int(ids[e.source]), int(ids[e.target]), _cell(w[i])) for i, e in enumerate(g.es))
+
+
 def snap_diff(a, b, annot=()):
-    """Keys (with column names) on which two snapshots differ; node columns in `annot` are ignored."""
+    """Keys (with column names) on which two snapshots differ.  `annot` is the whitelist of documented annotations:
+    either a sequence of NODE-table column names, or a dict {'nodes': [...], 'connectors': [...], 'attrs': [...]}."""
+    if not isinstance(annot, dict):
+        annot = {'nodes': tuple(annot)}
     if a.get('kind') != b.get('kind'):
         return [f"kind {a.get('kind')}->{b.get('kind')}"]
     if a['kind'] == 'NeuronList':
@@ -231,10 +439,16 @@ def snap_diff(a, b, annot=()):
         va, vb = a.get(k), b.get(k)
         if k in ('nodes', 'connectors') and isinstance(va, dict) and isinstance(vb, dict):
             for c in sorted(set(va) | set(vb)):
-                if c in annot:
+                if c in annot.get(k, ()):
                     continue
                 if va.get(c) != vb.get(c):
                     out.append(f'{k}.{c}')
+        elif k == 'other' and isinstance(va, dict) and isinstance(vb, dict):
+            for c in sorted(set(va) | set(vb)):
+                if c in annot.get('attrs', ()):
+                    continue
+                if va.get(c) != vb.get(c):
+                    out.append(f'attr.{c}')
         elif va != vb:
             out.append(k)
     return out
@@ -290,6 +504,33 @@ def mutate_neuron(r, st, tags=False):
     if isinstance(d.get('_soma'), (list, np.ndarray)) and len(d['_soma']):
         try:
             d['_soma'][0] = -5
+        except Exception:
+            pass
+    # the cached igraph (copy() deep-copies it) and the cached geodesic matrix
+    ig = d.get('_igraph')
+    if ig is not None and hasattr(ig, 'es') and ig.ecount() and 'weight' in ig.es.attributes():
+        try:
+            ig.es['weight'] = [w + 1000 for w in ig.es['weight']]
+            st['igraph'] = st.get('igraph', 0) + 1
+        except Exception:
+            pass
+    mutate_table(d.get('_geodesic_matrix'), st) if isinstance(d.get('_geodesic_matrix'), pd.DataFrame) else None
+    # every other list / dict / array / table hanging on the object (user-defined attributes included)
+    for k, v in list(d.items()):
+        if k in _HANDLED_ATTRS or k in ('_graph_nx', '_igraph', '_segments', '_small_segments', '_geodesic_matrix', '_simple'):
+            continue
+        try:
+            if isinstance(v, list):
+                v.append('__c03__')
+            elif isinstance(v, dict):
+                v['__c03__'] = 1
+            elif isinstance(v, np.ndarray):
+                mutate_array(v, st)
+            elif isinstance(v, pd.DataFrame):
+                mutate_table(v, st)
+            else:
+                continue
+            st['other_attrs'] = st.get('other_attrs', 0) + 1
         except Exception:
             pass
 
@@ -607,6 +848,196 @@ SKIP = {
     'NeuronList.sort_values': 'mutator by contract (sorts the list in place)',
 }
 
+# ---- "nothing to do" / degenerate argument variants --------------------------------------------------------------------
+# A call whose arguments ask for no change is where an early `return x` short-cut hides: the non-inplace call must still hand
+# back a FRESH, independent object (and the in-place call the same object in the same state).
+def _identity_affine():
+    from navis.transforms.affine import AffineTransform
+    return AffineTransform(np.eye(4))
+
+
+def _all_mask(x, value=True):
+    if isinstance(x, navis.TreeNeuron):
+        return np.full(x.n_nodes, value, dtype=bool)
+    if isinstance(x, navis.MeshNeuron):
+        return np.full(x.n_vertices, value, dtype=bool)
+    return np.full(len(x.points), value, dtype=bool)
+
+
+def _big_volume(x, inside=True):
+    x0 = x[0] if isinstance(x, navis.NeuronList) else x
+    pts = x0.nodes[['x', 'y', 'z']].values if isinstance(x0, navis.TreeNeuron) else \
+        (np.asarray(x0.vertices) if isinstance(x0, navis.MeshNeuron) else np.asarray(x0.points))
+    lo, hi = pts.min(axis=0) - 5, pts.max(axis=0) + 5
+    if not inside:
+        lo, hi = hi + 1000, hi + 1010
+    b = trimesh.creation.box(extents=hi - lo)
+    b.apply_translation((lo + hi) / 2)
+    return navis.Volume(b.vertices, b.faces, name='box')
+
+
+def _roots(x):
+    r = [int(v) for v in x.root]
+    return r[0] if len(r) == 1 else r
+
+
+NOOP = {
+    'reroot_skeleton': {'current-root': dict(kinds=['tree', 'forest', 'rich', 'frag'], args=lambda x, r: A(_roots(x))),
+                        'soma-is-root': dict(kinds=['tree'], args=lambda x, r: A(int(x.soma)))},
+    'TreeNeuron.reroot': {'current-root': dict(kinds=['tree', 'forest'], args=lambda x, r: A(_roots(x)))},
+    'subset_neuron': {'all': dict(kinds=['tree', 'rich', 'mesh', 'dots'],
+                                  args=lambda x, r: A(_ids(x) if isinstance(x, navis.TreeNeuron) else _all_mask(x))),
+                      'mask-all': dict(kinds=['tree'], args=lambda x, r: A(_all_mask(x))),
+                      'none': dict(kinds=['tree', 'mesh', 'dots'], args=lambda x, r: A(_all_mask(x, False)))},
+    'prune_twigs': {'size-0': dict(kinds=['tree', 'rich', 'nl_tree'], args=lambda x, r: A(0)),
+                    'size-0-exact': dict(kinds=['tree'], args=lambda x, r: A(0, exact=True)),
+                    'mask-none': dict(kinds=['tree'], args=lambda x, r: A(6, mask=_all_mask(x, False)))},
+    'TreeNeuron.prune_twigs': {'size-0': dict(kinds=['tree'], args=lambda x, r: A(0))},
+    'prune_by_strahler': {'absent-index': dict(kinds=['tree', 'rich'], args=lambda x, r: A(to_prune=[40, 41])),
+                          'empty-list': dict(kinds=['tree'], args=lambda x, r: A(to_prune=[]))},
+    'TreeNeuron.prune_by_strahler': {'absent-index': dict(kinds=['tree'], args=lambda x, r: A([40, 41]))},
+    'prune_at_depth': {'depth-inf': dict(kinds=['tree', 'rich', 'nl_tree'], args=lambda x, r: A(10 ** 9))},
+    'TreeNeuron.prune_at_depth': {'depth-inf': dict(kinds=['tree'], args=lambda x, r: A(10 ** 9))},
+    'TreeNeuron.prune_by_longest_neurite': {'n-large': dict(kinds=['tree'], args=lambda x, r: A(1000))},
+    'longest_neurite': {'n-large': dict(kinds=['tree'], args=lambda x, r: A(n=1000))},
+    'TreeNeuron.prune_by_volume': {'all-inside': dict(kinds=['tree'], args=lambda x, r: A(_big_volume(x))),
+                                   'all-outside-OUT': dict(kinds=['tree'], args=lambda x, r: A(_big_volume(x, False), mode='OUT'))},
+    'downsample_neuron': {'factor-1': dict(kinds=['tree', 'rich', 'dots', 'nl_tree'], args=lambda x, r: A(1)),
+                          'factor-inf': dict(kinds=['tree'], args=lambda x, r: A(float('inf')))},
+    'TreeNeuron.downsample': {'factor-1': dict(kinds=['tree'], args=lambda x, r: A(1))},
+    'Dotprops.downsample': {'factor-1': dict(kinds=['dots'], args=lambda x, r: A(1))},
+    'resample_skeleton': {'current-resolution': dict(kinds=['tree'], args=lambda x, r: A(float(x.sampling_resolution))),
+                          'coarser-than-every-segment': dict(kinds=['tree'], args=lambda x, r: A(10 ** 6))},
+    'TreeNeuron.resample': {'coarser-than-every-segment': dict(kinds=['tree'], args=lambda x, r: A(10 ** 6))},
+    'heal_skeleton': {'unfragmented': dict(kinds=['tree', 'rich', 'nl_tree'], args=lambda x, r: A()),
+                      'unfragmented-drop_disc': dict(kinds=['tree'], args=lambda x, r: A(drop_disc=True)),
+                      'nothing-in-reach': dict(kinds=['frag'], args=lambda x, r: A(max_dist=0.001))},
+    'xform': {'identity': dict(kinds=['tree', 'rich', 'mesh', 'dots', 'nl_tree'], args=lambda x, r: A(_identity_affine()))},
+    'TreeNeuron.convert_units': {'current-unit': dict(kinds=['tree_u1'], args=lambda x, r: A('nm'))},
+    'MeshNeuron.convert_units': {'current-unit': dict(kinds=['mesh_u1'], args=lambda x, r: A('nm'))},
+    'Dotprops.convert_units': {'current-unit': dict(kinds=['dots_u1'], args=lambda x, r: A('nm'))},
+    'drop_fluff': {'single-component': dict(kinds=['tree', 'rich', 'mesh'], args=lambda x, r: A()),
+                   'keep-everything': dict(kinds=['forest', 'frag'], args=lambda x, r: A(keep_size=0))},
+    'Dotprops.drop_fluff': {'one-component': dict(kinds=['dots'], args=lambda x, r: A(10.0 ** 6))},
+    'remove_nodes': {'empty-list': dict(kinds=['tree', 'rich'], args=lambda x, r: A([]))},
+    'insert_nodes': {'empty-list': dict(kinds=['tree'], args=lambda x, r: A([]))},
+    'in_volume': {'everything-inside': dict(kinds=['tree', 'mesh', 'dots', 'nl_tree'], args=lambda x, r: A(_big_volume(x))),
+                  'nothing-inside': dict(kinds=['tree', 'dots'], args=lambda x, r: A(_big_volume(x, False))),
+                  'everything-OUT-of-far-volume': dict(kinds=['tree'], args=lambda x, r: A(_big_volume(x, False), mode='OUT'))},
+    'despike_skeleton': {'no-spikes': dict(kinds=['tree', 'rich'], args=lambda x, r: A(sigma=10 ** 9))},
+    'smooth_skeleton': {'window-1': dict(kinds=['tree'], args=lambda x, r: A(window=1))},
+    'guess_radius': {'nothing-missing': dict(kinds=['tree'], args=lambda x, r: A())},
+    'cell_body_fiber': {'no-soma': dict(kinds=['forest'], args=lambda x, r: A())},
+    'rewire_skeleton': {'own-graph': dict(kinds=['tree', 'rich'], args=lambda x, r: A(x.graph))},
+    'smooth_mesh': {'iterations-0': dict(kinds=['mesh'], args=lambda x, r: A(iterations=0))},
+    'simplify_mesh': {'ratio-1': dict(kinds=['mesh'], args=lambda x, r: A(1.0))},
+    'smooth_voxels': {'sigma-0': dict(kinds=['voxel'], args=lambda x, r: A(sigma=0))},
+    'VoxelNeuron.threshold': {'below-minimum': dict(kinds=['voxel'], args=lambda x, r: A(-1.0))},
+    'Dotprops.recalculate_tangents': {'same-k': dict(kinds=['dots'], args=lambda x, r: A(3))},
+    'NeuronList.remove_duplicates': {'no-duplicates': dict(kinds=['nl_tree'], args=lambda x, r: A(key='name'))},
+    'cut_skeleton': {'at-leaf': dict(kinds=['tree'], args=lambda x, r: A(_leaf(x)))},
+    'TreeNeuron.prune_distal_to': {'leaf': dict(kinds=['tree'], args=lambda x, r: A(_leaf(x)))},
+    'TreeNeuron.prune_proximal_to': {'root': dict(kinds=['tree'], args=lambda x, r: A(int(x.root[0])))},
+    'classify_nodes': {'already-classified': dict(kinds=['tree'], args=lambda x, r: A())},
+}
+
+
+# ---- option space ------------------------------------------------------------------------------------------------------
+# contexts: extra keyword arguments under which the flags are flipped, so that the flag has something to act on
+def _near_ids(x):
+    far = set(int(i) for i in x.nodes[x.nodes.x > 50000].node_id.values)
+    return [int(i) for i in x.nodes.node_id.values if int(i) not in far]
+
+
+CTX = {
+    'heal_skeleton': {'max_dist': lambda x, r: dict(max_dist=50), 'min_size': lambda x, r: dict(min_size=3),
+                      'mask': lambda x, r: dict(mask=_near_ids(x)) if isinstance(x, navis.TreeNeuron) else dict(max_dist=50)},
+    'stitch_skeletons': {'max_dist': lambda x, r: dict(max_dist=50)},
+    'prune_twigs': {'mask': lambda x, r: dict(mask=np.array([int(v) for v in x.leafs.node_id.values[::2]])) if isinstance(x, navis.TreeNeuron) else {}},
+    'TreeNeuron.prune_by_volume': {'OUT': lambda x, r: dict(mode='OUT')},
+}
+OPTION_KINDS = {'tree': 'rich', 'forest': 'frag', 'nl_tree': 'nl_rich'}
+OPTION_KIND_OVERRIDE = {'heal_skeleton': ['frag', 'nl_frag'], 'stitch_skeletons': ['nl_rich', 'nl_frag'], 'combine_neurons': ['nl_rich'],
+                        'drop_fluff': ['frag', 'mesh'], 'break_fragments': ['frag', 'mesh'], 'cell_body_fiber': ['rich', 'frag'],
+                        'subset_neuron': ['rich', 'frag', 'mesh', 'dots']}
+NO_FLIP = {'inplace', 'progress', 'parallel', 'verbose', 'n_cores', 'copy', 'raise_not_found'}
+EXTRA_CHOICES = {'stitch_skeletons': {'method': ['LEAFS', 'ALL', 'NONE'], 'master': ['SOMA', 'LARGEST', 'FIRST']},
+                 'resample_skeleton': {'method': ['linear', 'quadratic']},
+                 'guess_radius': {'method': ['linear', 'nearest']},
+                 'NeuronList.remove_duplicates': {'keep': ['first', 'last']},
+                 'split_axon_dendrite': {'metric': ['synapse_flow_centrality', 'bending_flow', 'segregation_index'],
+                                         'split': ['prepost', 'distance'], 'cellbodyfiber': ['soma', 'root', False]}}
+
+
+def _literals(ann, out):
+    import typing
+    if typing.get_origin(ann) is typing.Literal:
+        out.extend(a for a in typing.get_args(ann) if isinstance(a, (str, bool)))
+    else:
+        for q in typing.get_args(ann) or ():
+            _literals(q, out)
+
+
+def _doc_choices(f):
+    """`name :  'A' | 'B' [| ...]` lines of a numpydoc Parameters section -> {name: [choices]}"""
+    import re
+    quoted = re.compile(r"""(['"])([\w\-:. ]+)\1""")
+    out = {}
+    for line in (inspect.getdoc(f) or '').splitlines():
+        m = re.match(r'^(\w+)\s*:\s+(.*)$', line)
+        if not m:
+            continue
+        ch = []
+        for t in m.group(2).split('|'):
+            mm = quoted.fullmatch(t.split(',')[0].strip())
+            if mm:
+                ch.append(mm.group(2))
+        if len(ch) >= 2:
+            out[m.group(1)] = ch
+    return out
+
+
+def option_flips(name, f):
+    """[(param, value)] — every boolean keyword flipped, every documented / annotated string choice other than the default"""
+    try:
+        sig = inspect.signature(f)
+    except Exception:
+        return []
+    doc = _doc_choices(f)
+    out = []
+    for p in sig.parameters.values():
+        if p.name in NO_FLIP or p.kind in (p.VAR_KEYWORD, p.VAR_POSITIONAL) or p.default is inspect._empty:
+            continue
+        d = p.default
+        if isinstance(d, bool):
+            out.append((p.name, not d))
+            continue
+        ch = []
+        try:
+            _literals(p.annotation, ch)
+        except Exception:
+            pass
+        ch += doc.get(p.name, [])
+        ch += EXTRA_CHOICES.get(name, {}).get(p.name, [])
+        seen = []
+        for c in ch:
+            if c != d and c not in seen and not (isinstance(d, (tuple, list)) and c in d):
+                seen.append(c)
+        out += [(p.name, c) for c in seen]
+    return out
+
+
+def option_kinds(name):
+    if name in OPTION_KIND_OVERRIDE:
+        return OPTION_KIND_OVERRIDE[name]
+    ks = []
+    for k in SPEC[name]['kinds']:
+        k2 = OPTION_KINDS.get(k, k)
+        if k2 not in ks:
+            ks.append(k2)
+    return ks
+
+
 ARITH_OPS = [('mul', 2), ('truediv', 2), ('add', 4), ('sub', 4)]
 
 
@@ -655,7 +1086,136 @@ def short(e):
 # =================================================================================================
 # stream A: the sweep
 # =================================================================================================
+# ---- documented annotations: per function, per table, per column (and per option where the docstring says so) ----------
+# Everything a call WITHOUT inplace may leave behind in its input.  The same facts are pinned to the source by the translator
+# (`Gen/InputWrites.lean`, theorem `input_writes_whitelisted`).
+ANNOT = {
+    'strahler_index': dict(nodes=['strahler_index']),
+    'segment_analysis': dict(nodes=['strahler_index']),
+    'flow_centrality': dict(nodes=['flow_centrality']),
+    'synapse_flow_centrality': dict(nodes=['synapse_flow_centrality'], attrs=['centrality_method']),
+    'bending_flow': dict(nodes=['bending_flow']),
+    'arbor_segregation_index': dict(nodes=['segregation_index']),
+    'betweeness_centrality': dict(nodes=['betweenness']),
+    'classify_nodes': dict(nodes=['type']),
+    # documented under a non-default option only
+    'split_axon_dendrite': dict(when=('label_only', True), nodes=['compartment'], connectors=['compartment'], returns_input=True),
+    'break_fragments': dict(when=('labels_only', True), nodes=['fragment'], attrs=['fragments'], returns_input=True),
+}
+# functions that by contract hand back the object they were given (annotation functions: "returns the neuron with the
+# column added") — for these "result is input" is fine and mutating the result is mutating the input by definition
+RETURNS_INPUT = {'strahler_index', 'flow_centrality', 'synapse_flow_centrality', 'bending_flow', 'arbor_segregation_index',
+                 'betweeness_centrality', 'classify_nodes'}
+
+
+def annot_for(name, kwargs):
+    a = ANNOT.get(name)
+    if not a:
+        return {}, name in RETURNS_INPUT
+    if 'when' in a and kwargs.get(a['when'][0], None) != a['when'][1]:
+        return {}, False
+    return {k: tuple(a.get(k, ())) for k in ('nodes', 'connectors', 'attrs')}, (name in RETURNS_INPUT or a.get('returns_input', False))
+
+
+def neurons_of(o):
+    if isinstance(o, navis.NeuronList):
+        return list(o.neurons)
+    if isinstance(o, navis.BaseNeuron):
+        return [o]
+    if isinstance(o, (list, tuple)):
+        return [n for e in o[:20] for n in neurons_of(e)]
+    if isinstance(o, dict):
+        return [n for e in list(o.values())[:20] for n in neurons_of(e)]
+    return []
+
+
+CONTAINER_ATTRS = ('_nodes', '_connectors', '_vertices', '_faces', '_points', '_vect', '_alpha', '_data', '_values', '_offset',
+                   'tags', '_igraph', '_segments', '_small_segments', '_geodesic_matrix', '_adjacency_matrix', '_simple')
+
+
+def shared_containers(x, res):
+    """Mutable containers of a result neuron that ARE (or alias the memory of) containers of an input neuron."""
+    out = []
+    ins = neurons_of(x)
+    for r in neurons_of(res):
+        for n in ins:
+            if r is n:
+                continue
+            dn, dr = n.__dict__, r.__dict__
+            for k in CONTAINER_ATTRS:
+                v = dr.get(k)
+                if v is None:
+                    continue
+                for k2 in CONTAINER_ATTRS:
+                    w = dn.get(k2)
+                    if w is None:
+                        continue
+                    if v is w:
+                        out.append(f'{k} is input.{k2}')
+                    elif isinstance(v, np.ndarray) and isinstance(w, np.ndarray) and v.size and w.size \
+                            and v.flags.writeable and np.shares_memory(v, w):
+                        out.append(f'{k} shares memory with input.{k2}')
+            tr, tn = dr.get('tags'), dn.get('tags')
+            if isinstance(tr, dict) and isinstance(tn, dict):
+                for k, v in tr.items():
+                    if isinstance(v, (list, np.ndarray)) and any(v is w for w in tn.values()):
+                        out.append(f'tags[{k!r}] list is the input\'s list')
+    return out
+
+
+SEG_SIG = 'copy() / cached _segments and _small_segments copied shallowly / result.segments[i][j] = v changes input.segments'
+
+
+def shared_segment_arrays(x, res):
+    """inner arrays of the cached segment lists shared between input and result (copy.copy of a list of arrays)"""
+    out = []
+    for n in neurons_of(x):
+        for r in neurons_of(res):
+            if r is n:
+                continue
+            for k in ('_segments', '_small_segments'):
+                a, b = n.__dict__.get(k), r.__dict__.get(k)
+                if isinstance(a, list) and isinstance(b, list) and a and b:
+                    ids = {id(e) for e in a}
+                    if any(id(e) in ids for e in b) or any(isinstance(e, np.ndarray) and isinstance(f, np.ndarray) and e.size and f.size
+                                                           and np.shares_memory(e, f) for e, f in zip(a[:3], b[:3])):
+                        out.append(k)
+    return out
+
+
+def case_tag(case):
+    t = f"{case['name']}[{case['input']}{',warm' if case.get('warm') else ''}"
+    if case.get('noop'):
+        t += f",noop:{case['noop']}"
+    if case.get('ctx'):
+        t += f",ctx:{case['ctx']}"
+    if case.get('opt'):
+        t += ',' + ','.join(f'{k}={v!r}' for k, v in sorted(case['opt'].items()))
+    if case.get('backend'):
+        t += f",backend:{case['backend']}"
+    return t + ']'
+
+
+def known_signature(name, kwargs, d, x=None):
+    """signature of an OPEN known finding this input-modification matches (None = an ordinary violation)"""
+    dd = set(d)
+    if name == 'split_into_fragments' and kwargs.get('reroot_soma') is True:
+        return 'split_into_fragments(reroot_soma=True) / input rerooted in place / soma is not the root'
+    if name == 'persistence_points' and kwargs.get('remove_cbf') is True:
+        return 'persistence_points(remove_cbf=True) / input rerooted in place / soma is not the root'
+    if name == 'average_skeletons' and dd and all(k.endswith('attr.tree') for k in dd):
+        return 'average_skeletons / `tree` attribute (cKDTree) left on every input neuron'
+    return None
+
+
 def sweep_case(ctx, case):
+    if case.get('backend'):
+        with _backends.backend(case['backend']):       # the Python fall-backs (igraph / networkx) instead of navis-fastcore
+            return _sweep_case(ctx, case)
+    return _sweep_case(ctx, case)
+
+
+def _sweep_case(ctx, case):
     name, kind, seed, warm = case['name'], case['input'], case['seed'], case['warm']
     cat = catalogue()
     f = cat.get(name)
@@ -663,9 +1223,10 @@ def sweep_case(ctx, case):
     if f is None or spec is None:
         ctx.count('sweep_missing', name)
         return
-    annot = tuple(spec.get('annot', ()))
+    noop, cx, opt = case.get('noop'), case.get('ctx'), dict(case.get('opt') or {})
     rng = _random.Random(f'c03-args-{name}-{kind}-{seed}')
-    tag = f'{name}[{kind}{",warm" if warm else ""}]'
+    tag = case_tag(case)
+    stream = 'noop' if noop else ('option' if (opt or cx) else ('backend' if case.get('backend') else 'base'))
 
     def prep():
         x = build(kind, seed, warm)
@@ -677,14 +1238,27 @@ def sweep_case(ctx, case):
             return y
         return x
 
+    def make_args(x, r):
+        builder = NOOP[name][noop]['args'] if noop else spec['args']
+        args, kwargs = builder(x, r)
+        kwargs = dict(kwargs)
+        if cx:
+            kwargs.update(CTX[name][cx](x, r))
+        kwargs.update(opt)
+        return args, kwargs
+
     x = prep()
     ip = has_inplace(f)
+    r0 = rng.random()
     try:
-        args, kwargs = spec['args'](x, _random.Random(rng.random()))
+        args, kwargs = make_args(x, _random.Random(r0))
     except Exception as e:
         ctx.count('arg_builder_error', f'{name}: {short(e)}')
         return
-    s0 = snap(x)
+    annot, returns_input = annot_for(name, kwargs)
+    # the reference snapshot is taken on an identically built TWIN, so that snapshotting (which reads the derived views)
+    # does not warm the caches of the object the call is made on
+    s0 = snap(prep())
     members0 = [id(n) for n in x.neurons] if isinstance(x, navis.NeuronList) else None
     # ---- 2. call without inplace
     if spec.get('inplace_default_true'):
@@ -698,15 +1272,18 @@ def sweep_case(ctx, case):
         if spec.get('expect_fail'):
             ctx.count('expected_failures', f'{name}: {spec["expect_fail"]}')
         else:
-            ctx.count('impl_errors', f'{name}[{kind}]: {short(err)}')
+            ctx.count('impl_errors' if stream == 'base' else f'{stream}_errors', f'{tag}: {short(err)}'[:160])
     else:
-        ctx.count('sweep_called', 'inplace-capable' if ip else 'no-inplace-parameter')
+        ctx.count('sweep_called', ('inplace-capable' if ip else 'no-inplace-parameter') + '/' + stream)
     s1 = snap(x)
     d = snap_diff(s0, s1, annot)
     if err is not None and spec.get('expect_fail'):
         return                      # skipped-with-reason: raises for every input in this environment
     ctx.oracle(not d, f'{tag}: input modified by a call without inplace=True (differs in {d[:6]})'
-                      + (f' [call raised {short(err)}]' if err is not None else ''), case)
+                      + (f' [call raised {short(err)}]' if err is not None else ''), case,
+               signature=known_signature(name, kwargs, d) if d else None)
+    if d:
+        return                      # the object is no longer the input we built: later steps would only echo this
     if members0 is not None:
         ctx.oracle(members0 == [id(n) for n in x.neurons], f'{tag}: the input NeuronList holds different neuron objects after the call', case)
     if annot:
@@ -714,44 +1291,48 @@ def sweep_case(ctx, case):
         ctx.count('annotation_columns', f'{name}: {sorted(added)}')
     if err is not None:
         return
-    ctx.oracle(res is not x or name in RETURNS_INPUT, f'{tag}: call without inplace returned the input object itself', case) \
-        if isinstance(res, (navis.BaseNeuron, navis.NeuronList)) else None
+    is_n = isinstance(res, (navis.BaseNeuron, navis.NeuronList))
+    selector = bool(spec.get('selector'))
+    if not returns_input and not selector:
+        if is_n:
+            ctx.oracle(res is not x, f'{tag}: call without inplace returned the input object itself', case)
+        ins = {id(n) for n in neurons_of(x)}
+        same = [type(r).__name__ for r in neurons_of(res) if id(r) in ins]
+        ctx.oracle(not same, f'{tag}: call without inplace handed back {len(same)} of the input neuron object(s) themselves '
+                             f'(a non-inplace call must return fresh objects)', case)
+        sh = shared_containers(x, res)
+        ctx.oracle(not sh, f'{tag}: result shares containers with the input ({sh[:4]})', case)
+        sg = shared_segment_arrays(x, res)
+        if sg:
+            ctx.oracle(False, f'{tag}: the result\'s cached {sg[0]} holds the same arrays as the input\'s cache', case, signature=SEG_SIG)
     # ---- 3. mutate the result
-    s_res = snap(res) if isinstance(res, (navis.BaseNeuron, navis.NeuronList)) else None
+    s_res = snap(res, light=True) if is_n and (ip or stream == 'option') else None
     st = {}
-    if name not in RETURNS_INPUT:
-        sel = not spec.get('selector')      # selectors hand back the member objects themselves (like `nl[i]`)
-        mutate_result(res, st, tags=False, neurons=sel)
+    if not returns_input:
+        sel = not selector      # selectors hand back the member objects themselves (like `nl[i]`)
+        mutate_result(res, st, tags=True, neurons=sel)
         for k, v in st.items():
             ctx.count('mutated_' + k, v if k.endswith('errors') else 'n')
-        s2 = snap(x)
-        d2 = snap_diff(s1, s2)
+        d2 = snap_diff(s1, snap(x))
+        d3 = [k for k in d2 if k.endswith('tags')]          # tag lists: a separate failure kind
+        d2 = [k for k in d2 if not k.endswith('tags')]
         ctx.oracle(not d2, f'{tag}: editing the tables/arrays of the RESULT changed the input (shared {d2[:6]})', case)
-        # tag lists (separate failure kind)
-        mutate_result(res, st, tags=True, neurons=sel)
-        s3 = snap(x)
-        d3 = [k for k in snap_diff(s2, s3) if k.endswith('tags')]
-        d3o = [k for k in snap_diff(s2, s3) if not k.endswith('tags')]
         ctx.oracle(not d3, f'{tag}: appending to a tag list of the RESULT changed the input\'s tags (copy() shares the lists)',
                    case)
-        ctx.oracle(not d3o, f'{tag}: editing the result changed the input ({d3o[:6]})', case)
     # ---- 4. inplace
     if ip and not spec.get('nondet'):
         y = prep()
         try:
-            args2, kwargs2 = spec['args'](y, _random.Random(rng.random()))
+            args2, kwargs2 = make_args(y, _random.Random(r0))      # the same arguments as the first call
         except Exception as e:
             ctx.count('arg_builder_error', f'{name}: {short(e)}')
             return
-        # same arguments as the first call (the arg builder is deterministic in (x, rng) — rebuild with the same rng)
-        rng2 = _random.Random(f'c03-args-{name}-{kind}-{seed}')
-        args2, kwargs2 = spec['args'](y, _random.Random(rng2.random()))
         kwargs2 = dict(kwargs2, inplace=True)
         members_y = [id(n) for n in y.neurons] if isinstance(y, navis.NeuronList) else None
         try:
             r2 = invoke(name, f, y, args2, kwargs2)
         except Exception as e:
-            ctx.count('impl_errors', f'{name}[{kind}] inplace=True: {short(e)}')
+            ctx.count('impl_errors', f'{tag} inplace=True: {short(e)}'[:160])
             ctx.oracle(False, f'{tag}: works without inplace but raises with inplace=True: {short(e)}', case)
             return
         ctx.count('inplace_return', 'self' if r2 is y else ('None' if r2 is None else type(r2).__name__))
@@ -760,28 +1341,28 @@ def sweep_case(ctx, case):
             ctx.oracle(members_y == [id(n) for n in y.neurons],
                        f'{tag}: inplace=True on a NeuronList did not keep the same neuron objects in the same order', case)
         if s_res is not None:
-            dy = snap_diff(s_res, snap(y))
+            dy = snap_diff(s_res, snap(y, light=True))
             ctx.oracle(not dy, f'{tag}: state after inplace=True differs from the result of the non-inplace call (in {dy[:6]})', case)
-            changed = bool(snap_diff(s0, s_res))
-            ctx.count('inplace_effect', 'changes-state' if changed else 'no-op-on-this-input')
+            changed = bool([k for k in snap_diff(s0, s_res) if not k.endswith('graph_edges')])
+            ctx.count('inplace_effect/' + stream, 'changes-state' if changed else 'no-op-on-this-input')
         # model correspondence of the observable pattern
-        obs = f'same={0 if res is not x else 1} frame={1 if not d else 0}|same={1 if (r2 is y or r2 is None) else 0}'
-        m1 = ctx.ask('c03.call ip=0 stale=0 init=10,20,-,-,1 body=wr:n:1')
-        m2 = ctx.ask('c03.call ip=1 stale=0 init=10,20,-,-,1 body=wr:n:1')
-        mod = ' '.join(w for w in m1.split() if w.startswith(('same=', 'frame='))) + '|' + [w for w in m2.split() if w.startswith('same=')][0]
-        if isinstance(res, (navis.BaseNeuron, navis.NeuronList)):
-            ctx.corr(obs, mod, f'{tag}: identity/frame pattern vs heap model `call`', case)
-
-
-# functions that by contract hand back the object they were given (annotation functions: "returns the neuron with the
-# column added") — for these "result is input" is fine and mutating the result is mutating the input by definition
-RETURNS_INPUT = {'strahler_index', 'flow_centrality', 'synapse_flow_centrality', 'bending_flow', 'arbor_segregation_index',
-                 'betweeness_centrality', 'classify_nodes'}
+        if stream == 'base':
+            obs = f'same={0 if res is not x else 1} frame={1 if not d else 0}|same={1 if (r2 is y or r2 is None) else 0}'
+            m1 = ctx.ask('c03.call ip=0 stale=0 init=10,20,-,-,1 body=wr:n:1')
+            m2 = ctx.ask('c03.call ip=1 stale=0 init=10,20,-,-,1 body=wr:n:1')
+            mod = ' '.join(w for w in m1.split() if w.startswith(('same=', 'frame='))) + '|' + [w for w in m2.split() if w.startswith('same=')][0]
+            if is_n:
+                ctx.corr(obs, mod, f'{tag}: identity/frame pattern vs heap model `call`', case)
+    elif stream == 'option' and s_res is not None:
+        ctx.count('option_effect/no-inplace', 'changes-state' if [k for k in snap_diff(s0, s_res) if not k.endswith('graph_edges')] else 'same-as-input')
 
 
 def arith_case(ctx, case):
     kind, op, seed = case['input'], case['op'], case['seed']
     k = dict(ARITH_OPS)[op]
+    neutral = bool(case.get('neutral'))
+    if neutral:
+        k = 1 if op in ('mul', 'truediv') else 0
     import operator
     fn = getattr(operator, op)
     ifn = getattr(operator, 'i' + op)
@@ -798,7 +1379,10 @@ def arith_case(ctx, case):
     d = snap_diff(s0, snap(x))
     ctx.oracle(not d, f'{tag}: `x {op} k` modified x (differs in {d[:6]})', case)
     s_res = snap(r)
-    ctx.oracle(bool(snap_diff(s0, s_res)), f'{tag}: operator had no effect on the result', case)
+    if not neutral:
+        ctx.oracle(bool(snap_diff(s0, s_res)), f'{tag}: operator had no effect on the result', case)
+    sh = shared_containers(x, r)
+    ctx.oracle(not sh, f'{tag}: result of the operator shares containers with the input ({sh[:4]})', case)
     st = {}
     mutate_result(r, st, tags=False)
     d2 = snap_diff(s0, snap(x))
@@ -816,6 +1400,68 @@ def arith_case(ctx, case):
     ctx.oracle(y is y0, f'{tag}: augmented assignment returned a different object', case)
     dy = snap_diff(s_res, snap(y0))
     ctx.oracle(not dy, f'{tag}: `x {op}= k` ends in a different state than `x {op} k` (in {dy[:6]})', case)
+
+
+def nlmethod_case(ctx, case):
+    """a TreeNeuron method called through the list: `nl.<method>(..., inplace=…)` (NeuronList.__getattr__ -> NeuronProcessor)"""
+    name, seed, warm = case['name'], case['seed'], case['warm']
+    meth = name.split('.', 1)[1]
+    spec = SPEC[name]
+    noop = case.get('noop')
+    builder = NOOP[name][noop]['args'] if noop else spec['args']
+    tag = f'nl.{meth}(...)' + (f'[noop:{noop}]' if noop else '') + (' warm' if warm else '')
+
+    def prep():
+        return build('nl_tree', seed, warm)
+
+    def call(nl, inplace):
+        # the same arguments for every member are only meaningful when they do not name nodes: build per-member arguments
+        # and call member by member through the processor when they differ
+        outs = []
+        r = _random.Random(f'c03-nlm-{name}-{seed}')
+        a0, k0 = builder(nl[0], _random.Random(r.random()))
+        per_member = any(isinstance(a, (int, np.integer, list)) and not isinstance(a, bool) for a in a0) and meth in (
+            'reroot', 'prune_distal_to', 'prune_proximal_to')
+        if per_member:
+            return None
+        return getattr(nl, meth)(*a0, **dict(k0, inplace=inplace))
+
+    x = prep()
+    s0 = snap(prep())
+    ids0 = [id(n) for n in x.neurons]
+    try:
+        res = call(x, False)
+    except Exception as e:
+        ctx.count('nlmethod_errors', f'{tag}: {short(e)}'[:160])
+        ctx.oracle(not snap_diff(s0, snap(x)), f'{tag}: input list modified although the call raised', case)
+        return
+    if res is None:
+        ctx.count('nlmethod', 'skipped: arguments name nodes of one member')
+        return
+    ctx.count('nlmethod', f'{meth}: returns {type(res).__name__}')
+    d = snap_diff(s0, snap(x))
+    ctx.oracle(not d and ids0 == [id(n) for n in x.neurons], f'{tag}: the list / its neurons were modified by a call without inplace=True ({d[:6]})', case)
+    ins = set(ids0)
+    same = [1 for r in neurons_of(res) if id(r) in ins]
+    ctx.oracle(not same, f'{tag}: the call without inplace handed back {len(same)} of the member objects themselves', case)
+    sh = shared_containers(x, res)
+    ctx.oracle(not sh, f'{tag}: result neurons share containers with the members ({sh[:4]})', case)
+    s_res = [snap(r) for r in neurons_of(res)]
+    st = {}
+    mutate_result(res, st, tags=True)
+    d2 = snap_diff(s0, snap(x))
+    ctx.oracle(not d2, f'{tag}: editing the result changed the members of the input list ({d2[:6]})', case)
+    y = prep()
+    idy = [id(n) for n in y.neurons]
+    try:
+        call(y, True)
+    except Exception as e:
+        ctx.oracle(False, f'{tag}: works without inplace but raises with inplace=True: {short(e)}', case)
+        return
+    ctx.oracle(idy == [id(n) for n in y.neurons], f'{tag}: inplace=True replaced member objects of the list', case)
+    if len(s_res) == len(y.neurons):
+        dy = [k for a, b in zip(s_res, [snap(n) for n in y.neurons]) for k in snap_diff(a, b)]
+        ctx.oracle(not dy, f'{tag}: member states after inplace=True differ from the non-inplace results (in {dy[:6]})', case)
 
 
 def listop_case(ctx, case):
@@ -1136,15 +1782,84 @@ def maplist_case(ctx, case):
                    f'map_neuronlist inplace=False: input list / neurons modified or result shares neuron objects', case)
 
 
+def deep_case(ctx, case):
+    """two-level attributes behind the real copy(): tags (dict of lists) and the cached segment lists (list of arrays) —
+    copy, edit through the copy, compare input / copy contents with the Lean model under the copy mode the translator
+    extracted for that attribute (`Gen/CopySpec.nestedMode`)"""
+    attr, edits, via = case['attr'], case['edits'], case.get('via', 'copy')
+    x = probe_tree(0, True, True)
+    if attr == 'tags':
+        x.tags = {f'k{i}': [int(v)] for i, v in enumerate(case['kids'])}
+        cont = lambda n: [int(sum(l)) for l in n.tags.values()]
+    else:
+        _ = x.segments, x.small_segments
+        cont = lambda n: [int(np.asarray(a).sum()) for a in n.__dict__[attr]]
+    kids = cont(x)
+    if via == 'copy':
+        r = x.copy()
+    elif via == 'nl.copy':
+        r = navis.NeuronList([x]).copy()[0]
+    else:
+        r = _copy.copy(x)
+    for e in edits:
+        p = e.split(':')
+        if attr == 'tags':
+            keys = list(r.tags)
+            if p[0] == 'i' and int(p[1]) < len(keys):
+                r.tags[keys[int(p[1])]][:] = [int(p[2])]              # in-place edit of the inner list
+            elif p[0] == 'a':
+                r.tags[f'new{len(r.tags)}_{p[1]}'] = [int(p[1])]
+            elif p[0] == 'd' and int(p[1]) < len(keys):
+                del r.tags[keys[int(p[1])]]
+        else:
+            segs = r.__dict__[attr]
+            if p[0] == 'i' and int(p[1]) < len(segs):
+                a = segs[int(p[1])]
+                a[0] += int(p[2]) - int(a.sum())                     # in-place edit of the inner array
+            elif p[0] == 'a':
+                segs.append(np.array([int(p[1])]))
+            elif p[0] == 'd' and int(p[1]) < len(segs):
+                del segs[int(p[1])]
+    sh = lambda l: ','.join(str(v) for v in l) if l else '-'
+    m = ctx.ask(f"c03.deep mode=TreeNeuron.{attr} kids={sh(kids)} edits={';'.join(edits) if edits else '-'}")
+    kv = dict(w.split('=', 1) for w in m.split())
+    ctx.count('deep_' + attr, f"mode={kv.get('mode')} frame={kv.get('frame')}")
+    ctx.corr(f'in={sh(cont(x))} out={sh(cont(r))}', f"in={kv.get('in')} out={kv.get('out')}",
+             f'{attr} behind {via}(), edits {edits}: contents of input / copy vs the two-level heap model (mode {kv.get("mode")})', case)
+    ctx.oracle(cont(x) == kids, f'editing `{attr}` of the result of {via}() changed the input\'s {attr} ({kids} -> {cont(x)})', case,
+               signature=SEG_SIG if attr != 'tags' else None)
+
+
+def annot_tie(ctx):
+    """the harness' per-function / per-column annotation whitelist is the Lean `InputWrites.documented` list"""
+    keys = {'strahler_index': 'morpho/mmetrics.py', 'segment_analysis': 'morpho/mmetrics.py', 'flow_centrality': 'morpho/mmetrics.py',
+            'synapse_flow_centrality': 'morpho/mmetrics.py', 'bending_flow': 'morpho/mmetrics.py',
+            'arbor_segregation_index': 'morpho/mmetrics.py', 'betweeness_centrality': 'morpho/mmetrics.py',
+            'split_axon_dendrite': 'morpho/manipulation.py', 'break_fragments': 'morpho/manipulation.py'}
+    for name, mod in keys.items():
+        a = ANNOT[name]
+        case = dict(kind='annot', name=name)
+        ctx.case(case)
+        m = dict(w.split('=', 1) for w in ctx.ask(f'c03.annot key={mod}:{name}').split())
+        via = m['via'] != '-'
+        cols = sorted(m['col'].split(',')) if m['col'] != '-' else []
+        if via:      # annotated through another function of the list: its column
+            cols = sorted(set(cols) | {c for v in m['via'].split(',') for c in ANNOT.get(v, {}).get('nodes', [])})
+        ctx.corr(f"col={sorted(set(a.get('nodes', [])) | set(a.get('connectors', [])))} attr={sorted(a.get('attrs', []))}",
+                 f"col={cols} attr={sorted(m['attr'].split(',')) if m['attr'] != '-' else []}",
+                 f'annotation whitelist of {name}: harness table vs Lean `InputWrites.documented`', case)
+
+
 def trace_cases(ctx):
     """translator traces: Python ok_trace == Lean okTrace; Lean trace semantics gives frame exactly when ok"""
     from translator import gen_inplace as G
     from .common import REPO
     rows = G.analyse(Path(REPO))
-    code = {'guard': 'g', 'write': 'w', 'writeIn': 'wi', 'delegate': 'd', 'branch': 'b'}
+    code = {'guard': 'g', 'write': 'w', 'writeIn': 'wi', 'delegate': 'd', 'branch': 'b', 'retIn': 'ri', 'lostDelegate': 'ld'}
     seen = set()
     extra = [['write', 'branch', 'guard'], ['branch', 'guard', 'writeIn'], [], ['delegate'], ['branch', 'write'],
-             ['writeIn', 'guard', 'write']]
+             ['writeIn', 'guard', 'write'], ['retIn'], ['branch', 'retIn'], ['branch', 'guard', 'write', 'lostDelegate'],
+             ['guard', 'lostDelegate'], ['lostDelegate', 'retIn'], ['branch', 'guard', 'write', 'write']]
     for r in [dict(key='synthetic', trace=t, ok=G.ok_trace(tuple(t))) for t in extra] + rows:
         t = tuple(r['trace'])
         if t in seen:
@@ -1158,6 +1873,14 @@ def trace_cases(ctx):
             ctx.corr('1', m['frame'], f'Lean trace semantics: frame must hold for the guarded trace of {r["key"]}', case)
         if m['nwbg'] == '0':
             ctx.corr('0', m['frame'], f'Lean trace semantics: frame must fail for a write-before-guard trace', case)
+        if r['ok']:
+            ctx.corr('1', m['eq'], f'Lean trace semantics: in-place and copying run of the trace of {r["key"]} must end in the same state', case)
+            if 'guard' in t:
+                ctx.corr('1', m['fresh'], f'Lean trace semantics: the guarded trace of {r["key"]} must hand back a fresh object', case)
+        if t and t[-1] == 'retIn':
+            ctx.corr('1', m['same'], 'Lean trace semantics: a trace ending in retIn hands back the input object', case)
+        if t == ('guard', 'lostDelegate'):
+            ctx.corr('0', m['eq'], 'Lean trace semantics: a discarded delegation makes the two runs differ', case)
     ctx.extra['translator_functions'] = len(rows)
     bad = [r['key'] for r in rows if not r['ok']]
     ctx.extra['unguarded_functions'] = bad      # `all_guarded` fails to check exactly when this is non-empty
@@ -1196,10 +1919,75 @@ def gen_sweep_cases(ctx, first=()):
                     if ctx.quick() and warm and ctx.rng.random() < 0.5:
                         continue
                     yield 'sweep', dict(name=n, input=kind, seed=seed, warm=warm)
+    # ---- the Python fall-back back-ends (navis-fastcore switched off; igraph / networkx): the same functions have separate
+    #      code paths there.  quick: inplace-capable and annotating functions, one alternate back-end each (alternating);
+    #      thorough / search: every covered function on skeletons under both.
+    alt = 0
+    for n in names:
+        if n not in SPEC or SPEC[n].get('expect_fail'):
+            continue
+        tk = [k for k in SPEC[n]['kinds'] if k in TREE_KINDS + ('nl_tree',)]
+        if not tk:
+            continue
+        full = (not ctx.quick()) or ctx.search_mode
+        if not full and not (has_inplace(cat[n]) or n in ANNOT):
+            continue
+        for be in (('igraph', 'networkx') if full else (('igraph', 'networkx')[alt % 2],)):
+            yield 'sweep', dict(name=n, input=tk[0], seed=seeds[0], warm=(alt % 3 != 0), backend=be)
+        alt += 1
+    # ---- degenerate / "nothing to do" arguments (every variant, every tier: the table is small and exhaustive)
+    for n in names:
+        for label, v in NOOP.get(n, {}).items():
+            if n not in SPEC:
+                continue
+            for kind in v['kinds']:
+                for warm in ((False, True) if kind in TREE_KINDS + ('nl_tree',) and label in ('current-root', 'unfragmented', 'all', 'identity') else (False,)):
+                    yield 'sweep', dict(name=n, input=kind, seed=seeds[0], warm=warm, noop=label)
+    # ---- option space: every boolean / documented-choice keyword flipped on its own (default context + the function's
+    #      contexts), plus random combinations — on inputs on which the options have something to act on
+    cat_ = cat
+    for n in names:
+        if n not in SPEC or SPEC[n].get('expect_fail') or SPEC[n].get('nondet'):
+            continue
+        flips = option_flips(n, cat_[n])
+        ctxs = [None] + sorted(CTX.get(n, {}))
+        kinds = option_kinds(n)
+        ip = has_inplace(cat_[n])
+        if not ip and ctx.quick() and not ctx.search_mode:
+            # quick tier, functions without `inplace`: first input kind only; every boolean flip, one value per string choice
+            kinds = kinds[:1]
+            byp = {}
+            for (k, v) in flips:
+                byp.setdefault(k, []).append(v)
+            flips = [(k, vs[0] if isinstance(vs[0], bool) else ctx.rng.choice(vs)) for k, vs in byp.items()]
+        for kind, oseed in [(k, sd) for k in kinds for sd in (seeds[:1] if ctx.quick() else seeds[:2])]:
+            for cx in ctxs:
+                if cx is not None:
+                    yield 'sweep', dict(name=n, input=kind, seed=oseed, warm=False, ctx=cx)
+                for (k, v) in flips:
+                    # warm caches are the dangerous state (something to share / to corrupt); cold is what the base sweep
+                    # does, and the thorough tier does both
+                    for warm in ((True,) if ctx.quick() else (True, False)) if kind in TREE_KINDS + ('nl_rich', 'nl_frag') else (False,):
+                        yield 'sweep', dict(name=n, input=kind, seed=oseed, warm=warm, ctx=cx, opt={k: v})
+            if len(flips) >= 2:
+                for _ in range(ctx.budget(1, 4) if ip else ctx.budget(0, 2)):
+                    ks = {}
+                    for (k, v) in ctx.rng.sample(flips, min(len(flips), ctx.rng.randint(2, 3))):
+                        ks.setdefault(k, v)
+                    yield 'sweep', dict(name=n, input=kind, seed=oseed, warm=ctx.rng.random() < 0.5,
+                                        ctx=ctx.rng.choice(ctxs), opt=ks)
+    # ---- methods of the member neurons called through the list (`nl.reroot(...)`: NeuronList.__getattr__ -> NeuronProcessor)
+    for n in names:
+        if n.startswith('TreeNeuron.') and n in SPEC and has_inplace(cat_[n]) and not SPEC[n].get('needs_origin'):
+            yield 'nlmethod', dict(name=n, seed=seeds[0], warm=False)
+            for label in NOOP.get(n, {}):
+                yield 'nlmethod', dict(name=n, seed=seeds[0], warm=True, noop=label)
     for kind in ['tree', 'mesh', 'dots', 'voxel', 'nl_tree']:
         for op, _ in (ARITH_OPS if kind != 'nl_tree' else ARITH_OPS[:2]):
             for seed in seeds[: 2 if not ctx.quick() else 1]:
                 yield 'arith', dict(input=kind, op=op, seed=seed, warm=(kind == 'tree' and seed % 2 == 0))
+            # the neutral element: `x * 1`, `x / 1`, `x + 0`, `x - 0` must still build a new, independent object
+            yield 'arith', dict(input=kind, op=op, seed=seeds[0], warm=(kind == 'tree'), neutral=True)
     for op in ['add', 'sub', 'and', 'or', 'orl']:
         for present in (False, True):
             yield 'listop', dict(op=op, present=present, seed=seeds[0])
@@ -1223,17 +2011,28 @@ def gen_prim_cases(ctx):
                     if typ != 'tree' and (g or ig or st):
                         continue
                     yield 'copy', dict(type=typ, g=g, i=ig, make_stale=st)
+    for i in range(ctx.budget(40, 300)):
+        attr = ctx.rng.choice(['tags', 'tags', '_segments', '_small_segments'])
+        nk = ctx.rng.randint(0, 4)
+        edits = []
+        for _ in range(ctx.rng.randint(0, 5)):
+            t = ctx.rng.choice(['i', 'i', 'i', 'a', 'd'])
+            edits.append(f'i:{ctx.rng.randint(0, 4)}:{ctx.rng.randint(50, 99)}' if t == 'i' else
+                         (f'a:{ctx.rng.randint(50, 99)}' if t == 'a' else f'd:{ctx.rng.randint(0, 3)}'))
+        yield 'deep', dict(attr=attr, kids=[ctx.rng.randint(1, 40) for _ in range(nk)], edits=edits,
+                           via=ctx.rng.choice(['copy', 'copy', 'nl.copy', 'copy.copy']))
     for i in range(ctx.budget(20, 120)):
         yield 'maplist', dict(k=ctx.rng.randint(0, 4), ip=ctx.rng.random() < 0.5, dup=ctx.rng.random() < 0.2,
                               body=[t for t in gen_body(ctx.rng, False, False, tree=False, maxlen=4)])
 
 
 RUNNERS = {'sweep': sweep_case, 'arith': arith_case, 'listop': listop_case, 'prim': prim_case, 'copy': copy_case,
-           'maplist': maplist_case}
+           'maplist': maplist_case, 'nlmethod': nlmethod_case, 'deep': deep_case}
 
 
 def run(ctx):
-    ctx.extra['rule'] = ('sweep cases = (catalogue name, input kind, input seed, graphs cached before the call); arithmetic cases = '
+    ctx.extra['rule'] = ('sweep cases = (catalogue name, input kind, input seed, graphs cached before the call [, degenerate-argument variant, '
+                         'option context, flipped options, back-end]); deep cases = (two-level attribute, contents, edits, copy route); arithmetic cases = '
                          '(neuron type, operator, seed); list-operator cases = (operator, operand already a member); primitive cases = '
                          '(neuron type, inplace, cached graphs, stale, random body of primitive writes, writes placed before the copy); '
                          'a case is non-trivial when the callable ran (sweep) or the body is non-empty (primitives); distinct = JSON digest')
@@ -1243,10 +2042,14 @@ def run(ctx):
         'graph writes are modelled pessimistically as writing through a networkx view (networkx refuses structural edits of a '
         'frozen view; attribute edits do write through)',
         'delegations (`f(x, inplace=inplace)`) are covered by the callee\'s own row of the generated table',
-        'tag lists, user-defined attributes and the trimesh cache are outside the heap model (tags are covered by the sweep)']
+        'tags and the cached segment lists are modelled as two-level containers (Model/HeapDeep); user-defined attributes and the '
+        'trimesh cache are outside the heap models (covered by the sweep)',
+        'functions without an `inplace` flag: the translator lists every write through the first parameter (module-level public '
+        'functions); methods without `inplace` are covered by the sweep only']
     if ctx.search_mode:
         ctx.notes.append('search mode: sweep repeated with fresh input seeds')
     bad = trace_cases(ctx)
+    annot_tie(ctx)
     for kind, case in itertools.chain(gen_sweep_cases(ctx, first=bad), gen_prim_cases(ctx)):
         c = dict(case, kind=kind)
         ctx.case(c, nontrivial=(kind != 'prim' or bool(case.get('body'))))
@@ -1262,6 +2065,9 @@ def replay(ctx, rp):
     ctx.case(case)
     if kind == 'trace':
         trace_cases(ctx)
+        return
+    if kind == 'annot':
+        annot_tie(ctx)
         return
     try:
         RUNNERS[kind](ctx, case)
